@@ -29,6 +29,7 @@ struct Nest {
     kind: NestKind,
     base: usize,
     busy: Vec<u64>,
+    local: Option<u64>,
 }
 
 #[derive(Clone, Debug)]
@@ -38,6 +39,7 @@ struct GThread {
     nest: Vec<Nest>,
     cur_busy: Vec<u64>,
     pending_nest: Option<Nest>,
+    cur_adapter: Option<u64>,
 }
 
 #[derive(Clone, Debug, Default)]
@@ -198,6 +200,11 @@ impl<'a> Gen<'a> {
             self.dead = true;
             return;
         }
+        if let Some(a) = th.cur_adapter.take() {
+            if let Some(i) = self.adapters.get_mut(&a) {
+                i.polling = false;
+            }
+        }
         if let Some(n) = th.pending_nest.take() {
             // the call carried a closure / poll: entered iff the reply says so
             let entered = match n.kind {
@@ -236,7 +243,7 @@ impl<'a> Gen<'a> {
             }
             Act::Spawn(t, p, sfx) => {
                 self.orch.spawn(t, p, sfx);
-                self.threads.insert(t, GThread { st: TSt::Ready, scoped: vec![], nest: vec![], cur_busy: vec![], pending_nest: None });
+                self.threads.insert(t, GThread { st: TSt::Ready, scoped: vec![], nest: vec![], cur_busy: vec![], pending_nest: None, cur_adapter: None });
                 self.log(tb, &format!("S {} {} {}", t, p, sfx), "-");
             }
             Act::Call(t, toks) => {
@@ -433,7 +440,8 @@ impl<'a> Gen<'a> {
                 _ => {}
             }
         }
-        let locals: Vec<u64> = th.scoped.iter().filter(|(k, _)| *k == 'l').map(|(_, id)| *id).collect();
+        let locals_out: Vec<u64> = th.nest.iter().filter_map(|n| n.local).collect();
+        let locals: Vec<u64> = th.scoped.iter().filter(|(k, id)| *k == 'l' && !locals_out.contains(id)).map(|(_, id)| *id).collect();
         if !locals.is_empty() && th.nest.len() < 2 {
             let l = *self.rng.pick(&locals);
             let ps = self.props();
@@ -572,7 +580,7 @@ impl<'a> Gen<'a> {
             }
             "lwith" | "laddp" => {
                 let th = self.threads.get_mut(&t).unwrap();
-                th.pending_nest = Some(Nest { kind: NestKind::Closure, base: th.scoped.len(), busy: vec![] });
+                th.pending_nest = Some(Nest { kind: NestKind::Closure, base: th.scoped.len(), busy: vec![], local: if head == "lwith" { Some(pu(&toks[1])) } else { None } });
             }
             "swith" | "saddp" => {
                 let h = pu(&toks[1]);
@@ -583,7 +591,7 @@ impl<'a> Gen<'a> {
                     }
                 }
                 let th = self.threads.get_mut(&t).unwrap();
-                th.pending_nest = Some(Nest { kind: NestKind::Closure, base: th.scoped.len(), busy: vec![h] });
+                th.pending_nest = Some(Nest { kind: NestKind::Closure, base: th.scoped.len(), busy: vec![h], local: None });
             }
             "saddev" => {
                 self.next_sym = self.next_sym.max(pu(&toks[2]));
@@ -610,14 +618,12 @@ impl<'a> Gen<'a> {
                 self.adapters.get_mut(&a).unwrap().polling = true;
                 let th = self.threads.get_mut(&t).unwrap();
                 th.scoped.push(('p', g));
-                th.pending_nest = Some(Nest { kind: NestKind::Poll { a, meth }, base: th.scoped.len(), busy: vec![] });
+                th.pending_nest = Some(Nest { kind: NestKind::Poll { a, meth }, base: th.scoped.len(), busy: vec![], local: None });
             }
             "polle" => {
                 let a = pu(&toks[1]);
-                if let Some(i) = self.adapters.get_mut(&a) {
-                    i.polling = false;
-                }
                 let th = self.threads.get_mut(&t).unwrap();
+                th.cur_adapter = Some(a);
                 th.nest.pop();
                 th.scoped.pop();
             }
